@@ -5,6 +5,7 @@ from ..index import AnalysisError, attr_chain, norm, own_nodes
 from ..query import (calls_in, call_name, is_value_yield, lines, falsy_edges, assigns, flag_cuts_from)
 from ..index import own_nodes
 from ..condeval import check_cond
+from .common import borrowed
 from .common import (TLSCONN, TLSREC, RECLAYER, nodes_with_call, consumes_of, dead_edge_labels,
                      must_pass, senderror_desc, gate_table)
 from . import c01shared
@@ -447,7 +448,38 @@ def rule_shared(ctx):
     c01shared.rule_role(ctx, "C02.ROLE")
 
 
+def rule_early_snapshot(ctx):
+    """EARLY (snapshot): the tolerance for undecryptable early-data records that is restored after a
+    middlebox-compatibility CCS is the value read just before THAT record was read: on every loop
+    path from one record read to the next the snapshot is taken again (a stale snapshot would
+    re-enable skipping after records of the handshake epoch were already accepted)."""
+    R = "C02.EARLY"
+    fi = ctx.index.func(TLSREC + "_getNextRecord")
+    g = ctx.an.cfg(fi)
+    reads = consumes_of(g, "_getNextRecordFromSocket")
+    snaps = [n for n in g.nodes if n.kind == "stmt" and isinstance(n.ast, ast.Assign)
+             and norm(n.ast.value) == "self._recordLayer.early_data_ok"]
+    restores = [n for n in g.nodes if n.kind == "stmt" and isinstance(n.ast, ast.Assign)
+                and any(attr_chain(t) == "self._recordLayer.early_data_ok" for t in n.ast.targets)]
+    if not reads or not restores:
+        raise AnalysisError("C02.EARLY: record read / early_data_ok restore not found in _getNextRecord")
+    for r in restores:
+        v = r.ast.value
+        ok = isinstance(v, ast.Name) and all(isinstance(s_.ast.targets[0], ast.Name) and s_.ast.targets[0].id == v.id
+                                             for s_ in snaps) and bool(snaps)
+        ctx.check(R, ok, fi.qname, "`%s` restores the snapshot" % norm(r.ast),
+                  "after a compatibility CCS early_data_ok must be restored from the snapshot taken before the "
+                  "record was read, not set to `%s`" % norm(v), fi.loc(r.ast))
+    for rd in reads:
+        seen = g.reach(g.normal_succ(rd), blocked=snaps)
+        ctx.check(R, rd.id not in seen, fi.qname, "early_data_ok snapshot retaken before every record read",
+                  "a record can be read with a snapshot of early_data_ok taken before an EARLIER record: after a "
+                  "CCS the stale value re-enables skipping of undecryptable records although records of the "
+                  "handshake epoch were already accepted", fi.loc(rd.ast) if rd.ast is not None else fi.loc())
+
+
 RULES = [
+    ("C02.EARLY-SNAPSHOT", "quick", rule_early_snapshot),
     ("C02.GATES", "quick", rule_gates),
     ("C02.DISPATCH", "quick", rule_dispatch),
     ("C02.EARLY", "quick", rule_early),
@@ -456,4 +488,6 @@ RULES = [
     ("C02.MAP", "quick", rule_map),
     ("C02.LENGTHS", "quick", rule_lengths),
     ("C02.SHARED", "quick", rule_shared),
+    ("C02.GETMSG", "quick", borrowed("c06", "rule_getmsg", "C06.GETMSG", "C02.GETMSG")),
+    ("C02.RECORD-GATES", "quick", borrowed("c06", "rule_record_gates", "C06.RECORD-GATES", "C02.RECORD-GATES")),
 ]
